@@ -55,7 +55,7 @@ where
       if f.rep then
         let (n0, s) := pick s (if depth = 0 then 1 else 6)
         let small := match f.kind with | .scalar _ => true | .dyn => true | .fixed _ _ => true | _ => false
-        let n := if n0 < 4 then n0 else if !small then 2 else if S.cfg.listPfx.width = 1 then 130 else if S.cfg.listPfx.width = 2 ∧ n0 = 5 then 33000 else 3
+        let n := if n0 < 4 then n0 else if !small then 2 else if S.cfg.listPfx.width = 1 then 130 else 3
         let (es, s) := (List.range n).foldl (fun (es, s) _ => let (v, s) := genVal S depth f.kind s; (es ++ [v], s)) ([], s)
         (acc ++ [Val.list es], s)
       else
@@ -64,7 +64,9 @@ where
     let fixes : List (String × Val) := (fs.zip vs).filterMap fun (f, v) =>
       match f.kind, v with
       | .matchOn key pairs, .dyn pkt _ =>
-        match pairs.find? (·.2 = pkt) with
+        -- any of the keys that map to the chosen packet (all members of a key list get exercised)
+        let cands := pairs.filter (·.2 = pkt)
+        match cands[(s / 7) % (max cands.length 1)]? with
         | some (.int n, _) => some (key, Val.int n)
         | some (.str b, _) => some (key, Val.str b)
         | none => none
